@@ -189,3 +189,35 @@ def r_C23g_C24d(root):
                 okc = False; out.append(Finding("C24", "C24.d", L, "language_from_str", "ignore_case=%s" % ast.unparse(k.value), "the grammar compiler's parser is case-insensitive, textx.tx is not"))
         ob("C24", "C24.d", L, "language_from_str", "grammar parser tokenisation options are constants", okc)
     return inst, out
+
+def r_rule_params_eval(root):
+    """C23.d / C22.h  visit_rule_params decided by abstract evaluation (sa/pyeval.py, nothing of textX runs) over the finite
+       domain  name in {skipws, ws, split, other} x value in {True, False, strings with and without escapes}:
+         C23.d  no combination makes the code fail with a Python-level error (a bool used as a string: `'\\\\' in False`,
+                len(True)); it either raises a TextX error or returns the parameter table;
+         C22.h  for ws given as a string with escapes the resulting set is exactly the characters named: newline iff \\n
+                occurs, carriage return iff \\r, tab iff \\t, blank iff a blank occurs; without a backslash the string itself."""
+    from sa import pyeval
+    out = []; inst = 0
+    fn = find(load(root, L), "TextXVisitor.visit_rule_params")
+    STR = ["", " ", "a", "\\n", "\\r", "\\t", "\\r\\n", "\\n\\r", " \\t\\r\\n", "\\t ", "\\n "]
+    for name in ("skipws", "ws", "split", "other"):
+        for value in [True, False] + STR:
+            inst += 1
+            env = {"children": [[name, value]]}
+            try:
+                res = ("ret", pyeval.run_block(fn.body, env))
+            except pyeval.Raised as r: res = ("raise", r.cls)
+            except pyeval.Unsupported as e: raise AnalysisError("visit_rule_params: outside the evaluated subset: %s" % e)
+            except (TypeError, AttributeError, KeyError, IndexError, ValueError) as e: res = ("pyerror", "%s: %s" % (type(e).__name__, e))
+            okd = res[0] != "pyerror" and not (res[0] == "raise" and not res[1].startswith("TextX"))
+            ob("C23", "C23.d", L, "TextXVisitor.visit_rule_params", "[%s=%r] -> %s" % (name, value, res[1] if res[0] != "ret" else "table"), okd)
+            if not okd: out.append(Finding("C23", "C23.d", L, "TextXVisitor.visit_rule_params", "rule param %s with value %r" % (name, value), "the rule parameter is handled with %s instead of a TextX error (a bare / negated flag yields a bool where the code expects a string)" % res[1], witness="Rule[%s%s]: 'a';" % ("no" if value is False else "", name)))
+            if name == "ws" and isinstance(value, str) and res[0] == "ret":
+                got = res[1].get("ws") if isinstance(res[1], dict) else None
+                want = value if "\\" not in value else "".join(ch for tok, ch in (("\\n", "\n"), ("\\r", "\r"), ("\\t", "\t"), (" ", " ")) if tok in value)
+                okw = isinstance(got, str) and set(got) == set(want) and (("\\" in value) or got == value)
+                for pr in ("C22", "C01"): ob(pr, "C22.h", L, "TextXVisitor.visit_rule_params", "[ws=%r] -> %r" % (value, got), okw)
+                if not okw:
+                    for pr in ("C22", "C01"): out.append(Finding(pr, "C22.h", L, "TextXVisitor.visit_rule_params", "ws=%r" % value, "the whitespace set of the rule becomes %r, the modifier names %r: characters of the declared set are not skipped inside the rule (or others are)" % (got, want), witness="Rule[ws=%s] with that character between two tokens" % repr(value)))
+    return inst, out
